@@ -495,8 +495,13 @@ class DBSessionContextManager(object):
                 try: can_commit = db_session.allowed_exceptions(exc)
                 except: rollback_and_reraise(sys.exc_info())
             if can_commit:
-                commit()
-                for cache in _get_caches(): cache.release()
+                try:
+                    commit()
+                    for cache in _get_caches(): cache.release()
+                except:
+                    # commit() may fail after some caches were committed (PartialCommitException), and releasing
+                    # one cache may fail: the remaining caches must not outlive the session
+                    rollback_and_reraise(sys.exc_info())
                 assert not local.db2cache
             else:
                 try: rollback()
